@@ -91,6 +91,10 @@ def parse_overlay(path):
                     rest = ln[3:].split(None, 2)[2].strip()
                     if not (rest.startswith("`") and rest.endswith("`")): raise ExtractError("overlay %s: bad loop marker %r" % (path, ln))
                     sec = ("loop", "over:" + rest[1:-1], None)
+                elif w[1] == "each":
+                    # //@ loop each : the same overlay on every loop of the body, however many there are (loops that all do the same job: a body
+                    # with one of them removed or one more added is still verified, and then fails or passes on its own merits)
+                    sec = ("loop", "each", it)
                 else:
                     sec = ("loop", int(w[1]), it)
             elif w[0] == "closure":
@@ -350,6 +354,8 @@ def extract(unit, ex):
         for a, b in cfg.get("await_subst", []):
             # an `.await` that stands for an environment interaction is redirected before R1 drops the remaining awaits
             frag = R.r8_subst(frag, st, [(a, b)], "R8a")
+        if cfg.get("detached_spawn"):
+            frag = R.r18_detached_spawn(frag, st)
         frag = R.r1_await(frag, st, mark=bool(cfg.get("await_mark")))
         for a, b in cfg.get("pre_subst", []):
             frag = R.r8_subst(frag, st, [(a, b)], "R8p")
@@ -414,7 +420,12 @@ def splice_loops(frag, ov, info):
     m = match_table(frag)
     ls = R.loops_in(frag, m, 0, len(frag))
     ins = []
-    for k, (it, text) in ov["loops"].items():
+    loops = {}
+    for k, v in ov["loops"].items():
+        if k == "each":
+            for n in range(len(ls)): loops.setdefault(n, v)
+        else: loops[k] = v
+    for k, (it, text) in loops.items():
         if isinstance(k, str) and k.startswith("over:"):
             want = [t.s for t in T(k[5:])]
             hit = None
